@@ -5,6 +5,7 @@
 import Bexpr.Wire
 import Bexpr.Eval.Create
 import Bexpr.Eval.Dump
+import Bexpr.Eval.RefCheck
 import Bexpr.Go.WF
 import Bexpr.StrconvDriver
 import BexprGen.GoGrammar
@@ -130,6 +131,20 @@ def evalLine (opts : List Opt) (expr : GoString) (datum : Any) (t : ReTable) : S
     let b := ev.evaluate (oracleOf t true) datum
     if a != b then "REMISS" else outToString a
 
+/-- `evalref`: the answer of the REFERENCE interpreter (`Spec.denote`) on the tree the PINNED grammar
+    assigns to the text, with `R1` when the Boolean hypotheses of `C01.refOk_sound` hold (then the
+    answer is what `Evaluate` must return) and `R0` otherwise. -/
+def evalRefLine (opts : List Opt) (expr : GoString) (datum : Any) (t : ReTable) : String :=
+  if !(Any.wf datum && optsWf opts) then "WF?" else
+  match createEvaluator pinEnv pinGrammar expr opts with
+  | .err => "CE"
+  | .panic => "CP"
+  | .ok ev =>
+    let a := RefCheck.refAnswer (oracleOf t false) ev datum
+    let b := RefCheck.refAnswer (oracleOf t true) ev datum
+    if a != b then "REMISS" else
+    (if RefCheck.refOk ev datum then "R1 " else "R0 ") ++ outToString a
+
 /-- canonical order for map entries: by the printed key -/
 def sortEntries (es : List (GoVal × GoVal)) : List (GoVal × GoVal) :=
   let keyed := es.map fun e => (valToString e.1, e)
@@ -191,13 +206,24 @@ def handle (line : String) : String :=
     | some m, some b => parseLine pegEnv pegGrammar m b
     | _, _ => "bad"
   | "eval" :: rest =>
+    -- a value of a NON-EMPTY interface type (fmt.Stringer, error …) is outside the modelled universe
+    -- (`Go/Val.lean`): the harness still runs the real code on it (panic oracle), the model says `U`
+    if rest.contains "interface" then "U" else
     match parseAll rest with
     | some [opts, .atom e, d, t] =>
       match optsOfSx opts, hexAtom? e, anyOfSx d, reTableOfSx t with
       | some o, some e, some d, some t => evalLine o e d t
       | _, _, _, _ => "bad"
     | _ => "bad"
+  | "evalref" :: rest =>
+    match parseAll rest with
+    | some [opts, .atom e, d, t] =>
+      match optsOfSx opts, hexAtom? e, anyOfSx d, reTableOfSx t with
+      | some o, some e, some d, some t => evalRefLine o e d t
+      | _, _, _, _ => "bad"
+    | _ => "bad"
   | "filter" :: rest =>
+    if rest.contains "interface" then "U" else
     match parseAll rest with
     | some [.atom e, d, t] =>
       match hexAtom? e, anyOfSx d, reTableOfSx t with
